@@ -395,6 +395,8 @@ type UDPSock struct {
 	// addressed to the host's IPv4 addresses and reports their sources in the 16-byte
 	// IPv4-mapped form, as the kernel does.
 	Dual bool
+	// FailClose: Close releases the socket but reports an error
+	FailClose bool
 
 	mu         sync.Mutex
 	queue      []pkt
@@ -625,12 +627,17 @@ func (s *UDPSock) Close() error {
 	s.closed = true
 	s.ClosedAt = time.Now()
 	close(s.closedCh)
+	failClose := s.FailClose
 	s.mu.Unlock()
 	s.net.mu.Lock()
 	if cur, ok := s.net.udp[key(s.local.IP, s.local.Port)]; ok && cur == s {
 		delete(s.net.udp, key(s.local.IP, s.local.Port))
 	}
 	s.net.mu.Unlock()
+	if failClose {
+		// close(2) may report a deferred I/O error; the descriptor is released all the same
+		return &net.OpError{Op: "close", Net: "udp", Addr: s.local, Err: os.NewSyscallError("close", syscall.EIO)}
+	}
 
 	return nil
 }
